@@ -1,5 +1,5 @@
-import Mp4ff.Lemmas.C15Names
-/-! facts about traces of the AVC SPS syntax needed for the picture-size statement (C15) -/
+import Mp4ff.Lemmas.C16Names
+/-! facts about traces of the AVC SPS syntax needed for the picture-size statement (C16) -/
 namespace Mp4ff.BitSyn
 theorem ops_get_stable (x : String) {f : Nat} {L : List Syn} {acc src : Trace} {os acc' src'}
     (h : ops f L acc src = some (os, acc', src')) (hm : mentionsL x L = false) :
